@@ -149,6 +149,9 @@ def split_items(text):
 
 
 AP_FORMS = [(None, 'f'), ('false', 'f'), ('true', 'y'), ('"any"', 'y'), ('"string"', 'ts'), ('"integer"', 'ti'), ('"float"', 'tn'), ('"boolean"', 'tb')]
+# every type name of the vocabulary as written: the model maps the name (Model/OasTree.v ap_of_name)
+AP_FORMS += [('"%s"' % n, 'w' + n.encode().hex()) for n in ['any', 'enum', 'mixed', 'string', 'integer', 'float', 'decimal', 'boolean', 'null', 'array', 'object',
+                                                              'email', 'uri', 'uuid', 'date', 'datetime']]
 TKEYS = ['"a"', '"b c"', '"\\u00e9"', '"k\\"q"', '"\\\\"', '"0"', '"#"', '"t\\tab"', '""']
 
 
@@ -291,7 +294,11 @@ def canon_node(o):
         return 'A(' + ';'.join(parts) + ')'
     if t == 'object':
         ap = o.get('additionalProperties', True)
-        apc = 'f' if ap is False else 'y' if ap is True else ('t:%s' % ap['type']) if isinstance(ap, dict) and set(ap.keys()) == {'type'} else 'other'
+        apc = ('f' if ap is False else 'y' if ap is True else 'other' if not isinstance(ap, dict) else
+               't:%s' % ap['type'] if set(ap.keys()) == {'type'} else
+               'null' if ap == {'enum': [None]} else 'array' if ap == {'type': 'array', 'items': {}} else
+               'object' if ap == {'type': 'object', 'properties': {}, 'additionalProperties': False} else
+               't:string:%s' % ap['format'] if set(ap.keys()) == {'type', 'format'} and ap['type'] == 'string' else 'other')
         parts = ['req=[' + ','.join(hx(k) for k in o.get('required', [])) + ']', 'ap=' + apc]
         parts += ['nullable'] if o.get('nullable') is True else []
         parts.append('{' + ','.join(hx(k) + ':' + canon_node(v) for k, v in o.get('properties', {}).items()) + '}')
@@ -423,6 +430,15 @@ class Prop:
         for text in ['@r', '@l', '@l | @u', '{\n  "a": @r,\n  "b": @l\n}', '[\n  @r,\n  @l\n]', '{\n  "a": @r // {optional: true}\n}', '{\n  @t: @l\n}',
                      '{ // {additionalProperties: "@r"}\n}', '1 // {or: ["@r", "integer"]}', '{\n  "k": [\n    @l | @r\n  ]\n}']:
             cs.append(Case('oas ' + hx(text), 'recursive'))
+        # additionalProperties with every type name of the vocabulary, a user type, a recursive one - on plain objects, next to
+        # key shortcuts (the converter then builds an anyOf of the named type and the shortcut types), nested, nullable
+        for tn in ['string', 'integer', 'float', 'decimal', 'boolean', 'null', 'array', 'object', 'any', 'email', 'uri', 'uuid', 'date', 'datetime',
+                   'enum', 'mixed', '@t', '@u', '@o', '@r']:
+            for form in ['{ // {additionalProperties: "%s"}\n  "a": 1\n}', '{ // {additionalProperties: "%s"}\n}',
+                         '{ // {additionalProperties: "%s"}\n  @t: 1\n}', '{ // {additionalProperties: "%s", nullable: true}\n  "a": 1,\n  @t: 2,\n  @u: "v"\n}',
+                         '[\n  { // {additionalProperties: "%s"}\n    "k": { // {additionalProperties: "%s"}\n    }\n  }\n]',
+                         '{\n  "m": { // {additionalProperties: "%s", optional: true}\n    @u: true\n  }\n}']:
+                cs.append(Case('oas ' + hx(form.replace('%s', tn)), 'additional-properties'))
         # `or` over names and rule-sets (no references): whatever Check() accepts must convert, and the example must be valid
         for text in or_forms(rng, 500 if tier == 'quick' else 8000):
             cs.append(Case('oas ' + hx(text), 'or-forms'))
